@@ -1177,8 +1177,15 @@ def _select(c, a, b):
     return FFloat(ITE(c, a.f, b.f))
 
 
+def _is_pyint(x):
+    return isinstance(x, (int, np.integer)) and not isinstance(x, (bool, np.bool_))
+
+
 def _where(c, a, b):
     c = tb(c)
+    if _is_pyint(a) and _is_pyint(b) and not isc(c):
+        # integer-valued selection (index arithmetic): concretise by forking on the condition
+        return int(a) if bool(SymBool(c)) else int(b)
     if S.fork_where and not isc(c):
         return _promote(a, b)[0] if bool(SymBool(c)) else _promote(a, b)[1]
     if isc(c):
@@ -1828,7 +1835,10 @@ def _lift_arr(f):
 def _np_where(c, a=None, b=None):
     if a is None:
         raise Unsupported("np.where with one argument")
-    return ew_arr(_where, c, a, b)
+    r = ew_arr(_where, c, a, b)
+    if r.a.size and all(_is_pyint(e) for e in r.a.flat):
+        return np.array(r.a, dtype=np.int64)      # an index array: plain NumPy from here on
+    return r
 
 
 def _np_full_like(x, fill_value, dtype=None, **kw):
